@@ -1,0 +1,18 @@
+//go:build verif
+
+package p2pmux
+
+import "go.brendoncarroll.net/p2p"
+
+// Verification hooks: re-export the unexported mux/demux function pairs. Compiled only with -tags verif.
+
+func VerifStringMux(c string, x p2p.IOVec) p2p.IOVec    { return stringMuxFunc(c, x) }
+func VerifStringDemux(x []byte) (string, []byte, error) { return stringDemuxFunc(x) }
+func VerifVarintMux(c uint64, x p2p.IOVec) p2p.IOVec    { return varintMuxFunc(c, x) }
+func VerifVarintDemux(x []byte) (uint64, []byte, error) { return varintDemuxFunc(x) }
+func VerifUint16Mux(c uint16, x p2p.IOVec) p2p.IOVec    { return uint16MuxFunc(c, x) }
+func VerifUint16Demux(x []byte) (uint16, []byte, error) { return uint16DemuxFunc(x) }
+func VerifUint32Mux(c uint32, x p2p.IOVec) p2p.IOVec    { return uint32MuxFunc(c, x) }
+func VerifUint32Demux(x []byte) (uint32, []byte, error) { return uint32DemuxFunc(x) }
+func VerifUint64Mux(c uint64, x p2p.IOVec) p2p.IOVec    { return uint64MuxFunc(c, x) }
+func VerifUint64Demux(x []byte) (uint64, []byte, error) { return uint64DemuxFunc(x) }
